@@ -254,8 +254,10 @@ def eval_combo(ctx, case, lat, kind, metric, pairs, rng, label, maxits=None, pro
             res.violation("path-crash", f"{kind} path {s}->{g} metric={metric} early={early}: {r[1]}", rcase)
             continue
         if r[0] == "E":
-            if probe:
-                # out-of-domain probe (tree-like lattice): recorded, not a violation; K: the model must fail too (or be a near-tie)
+            if probe and not early:
+                # out-of-domain probe (tree-like lattice), full search: needs n_edges + 1 iterations (C11_budget_n_edges_full_search_refuted);
+                # recorded, not a violation; K: the model must fail too (or be a near-tie).  With early stopping n_edges iterations
+                # are enough on every connected graph, trees included, so a failure there IS reported below.
                 pr = res.extra.setdefault("budget_probe_full_search_not_found_with_maxits_n_edges", [])
                 if len(pr) < 6:
                     pr.append({"lattice": case, "kind": kind, "metric": metric, "start": s, "goal": g, "early": early, "n_edges": lat.n_edges})
